@@ -186,6 +186,7 @@ type c20Sess struct {
 	created   int
 	hasSentry bool
 	persist   bool // does the session outlive the current connection
+	held      int  // copies this session leaves unacknowledged (at most 2, so a window of 3 never fills up)
 }
 
 type dropKey struct {
@@ -255,15 +256,17 @@ func runC20(s c20Scen, c *ev.Case) *ev.Violation {
 		gTerminated++
 		anyTerminated = true
 	}
-	holdAck := func(cl *fixture.Client) func(p *mw.Packet) {
-		held := 0
+	holdAck := func(cl *fixture.Client, ss *c20Sess) func(p *mw.Packet) {
 		return func(p *mw.Packet) {
+			mu.Lock()
+			hold := p.Type == mw.PUBLISH && p.QoS > 0 && strings.HasPrefix(string(p.Payload), "H") && (p.Dup || ss.held < 2)
+			if hold && !p.Dup {
+				ss.held++
+			}
+			mu.Unlock()
 			switch {
-			case p.Type == mw.PUBLISH && p.QoS > 0 && strings.HasPrefix(string(p.Payload), "H") && (p.Dup || held < 2):
-				// left unacknowledged (at most two copies per session, so the window of 3 never fills up)
-				if !p.Dup {
-					held++
-				}
+			case hold:
+				// left unacknowledged
 			case p.Type == mw.PUBLISH && p.QoS == 1:
 				_ = cl.Send(&mw.Packet{Type: mw.PUBACK, PacketID: p.PacketID})
 			case p.Type == mw.PUBLISH && p.QoS == 2:
@@ -281,7 +284,7 @@ func runC20(s c20Scen, c *ev.Case) *ev.Violation {
 			return harnessErr("dial: %v", err)
 		}
 		cl := fixture.NewClient(conn, clientName(i), ver(cs.V))
-		cl.OnPacket = holdAck(cl)
+		cl.OnPacket = holdAck(cl, ss)
 		allConns = append(allConns, cl)
 		name, lvl := mw.ProtoFor(ver(cs.V))
 		p := &mw.Packet{Type: mw.CONNECT, ProtoName: name, ProtoLevel: lvl, ClientID: clientName(i), CleanStart: clean}
@@ -382,7 +385,7 @@ func runC20(s c20Scen, c *ev.Case) *ev.Violation {
 		ss := sess[i]
 		ss.cur.Kill()
 		if !waitClientGone(b, clientName(i)) {
-			return harnessErr("client %d still registered 5 s after close", i)
+			return harnessErr("client %d still registered 5 s after close\n%s", i, brokerGoroutines())
 		}
 		gDisconnected++
 		ss.online = false
